@@ -1,0 +1,29 @@
+//! Event sink for external verification harnesses (cargo feature `verif`, off by default).
+//! Algorithms report their steps here as JSON lines; a harness enables the sink, runs the
+//! pipeline and drains the events.  With the sink disabled `emit` does nothing.
+use std::cell::{Cell, RefCell};
+
+thread_local! {
+    static ENABLED: Cell<bool> = const { Cell::new(false) };
+    static EVENTS: RefCell<Vec<String>> = const { RefCell::new(Vec::new()) };
+}
+
+pub fn enable(on: bool) {
+    ENABLED.with(|e| e.set(on));
+}
+
+pub fn emit(make: impl FnOnce() -> String) {
+    if ENABLED.with(|e| e.get()) {
+        let ev = make();
+        EVENTS.with(|v| v.borrow_mut().push(ev));
+    }
+}
+
+pub fn drain() -> Vec<String> {
+    EVENTS.with(|v| std::mem::take(&mut *v.borrow_mut()))
+}
+
+pub fn set_json(set: &roaring::RoaringBitmap) -> String {
+    let items: Vec<String> = set.iter().map(|x| x.to_string()).collect();
+    format!("[{}]", items.join(","))
+}
